@@ -34,6 +34,7 @@ def gen_peer_write(w, r):
         return None
     style = {
         "permute": r.random() < 0.8,
+        "permute_modules": r.random() < 0.5,
         "explicit_defaults": r.random() < 0.5,
         "stale_address": r.random() < 0.5,
         "vertices": r.choice(["all", "all", "some", "none"]),
